@@ -11,7 +11,7 @@ def sh(cmd, **kw):
 
 
 def main():
-    d = sys.argv[1].rstrip("/")
+    d = os.path.abspath(sys.argv[1].rstrip("/"))
     args = sys.argv[2:]
     meta = json.load(open(os.path.join(d, "meta.json")))
     props = meta.get("checks") or [meta["property"]]
